@@ -60,7 +60,7 @@ def run(tier, seed, replay=None):
             raw = c02.gen_cases(R.rng, "quick" if tier == "quick" else "thorough")
             if tier == "quick":
                 raw = [c for c in raw if c["injected"] > 0]
-            raw = [recvprop.with_pairs(c) for c in raw]
+            raw = recvprop.all_with_pairs(raw)
         out = recvprop.recv_part(
             R, prop, raw, "holds03", "nontrivial03", key_fn=lambda c, r: "derived-span",
             failed="holds03 (Exec/RecvCase.v): every leaf spanned, inside the input item, equal to the range of a node of the input, and inside a "
